@@ -139,3 +139,25 @@ func TestC18Fault(t *testing.T) {
 		faultEnumerate(rt, st, "C18", c, RunFault)
 	})
 }
+
+// TestC09Fault: the append-only / truncate-only-by-FlushRevert rules hold on
+// every individual file call also when a file call fails (a failed Flush must
+// not "clean up" by truncating, a failed write must not be retried below the
+// durable end, ...).
+func TestC09Fault(t *testing.T) {
+	st := NewStats("C09", "fault phase: C07's single-fault enumeration (every StoreFile call of a generated history fails once; torn writes; retry and abandon variants) with the call-log monitor on: every WriteAt/Truncate the store issues is still attributed and judged as in the main phase (writes only during Flush/Collection.Write and at or beyond the durable end, Truncate only during FlushRevert and only to the end of a root record or zero, durable prefix unchanged). Only monitor violations are reported here. Non-trivial as in C07.", commonAssumptions)
+	st.Extra["counts_units"] = "evaluations are faulted executions; -rapid.checks counts histories"
+	defer func() {
+		if p := outPath(); p != "" {
+			st.Write(p)
+		}
+	}()
+	gen := GenCase(profFault)
+	rapid.Check(t, func(rt *rapid.T) {
+		c := gen.Draw(rt, "case")
+		c.Cfg.Mem = false
+		c.Cfg.Profile = "C09-fault"
+		c.Ops = append(faultPrelude(rt), c.Ops...)
+		faultEnumerate(rt, st, "C09", c, RunFault)
+	})
+}
